@@ -670,6 +670,13 @@ def py_len(models, eng, v, st):
         if isinstance(o, OBytearray):
             return [(st, VInt(o.len))]
         if isinstance(o, ODict):
+            if o.items is None:
+                # a dict known only through its membership and value functions: its size is a non-negative function of the membership
+                from . import prelude as _pl
+                _pl.declare_fun('dict_card', ['VMapHas'], t.INT)
+                n = t.app('dict_card', t.INT, o.has)
+                st.assume(t.ge(n, t.ZERO))
+                return [(st, VInt(n))]
             return [(st, VInt(I(len(o.items))))]
     if isinstance(v, VDyn):
         tb = t.app('(_ is VBytes)', t.BOOL, v.t)
